@@ -26,6 +26,11 @@
   * fifth stage: `family_format_succeeds` — formatting a member of the family (whose items the target
     type can print: `Spec.showsFor`, part of `Spec.Unambiguous`) returns a text; the `family_roundtrip*`
     theorems conclude it instead of assuming it.
+  * sixth stage (audit gaps, 2026-09-30): `items_are_proved` (the hypothesis "proved items" follows from
+    `Spec.Unambiguous`), `Spec.spaceSafe` inside `Spec.Unambiguous`; `family_roundtrip_perturbed` (case and
+    white-space perturbations `Spec.Perturbed` at `parse_from_str`), `chain_from_separated_perturbed`,
+    `case_and_space_perturbation_chain2`, `family_parse_and_remainder` (trailing text);
+    `family_roundtrip_zoned_total` / `_excluded`, `leap_off_59_reads_back_normalised` (the excluded values).
   Not proved (compared with the crate and checked by the round-trip oracle only): the members listed in
   the docstring of `family_roundtrip_partial`.
   Concrete parser runs cannot be closed by `decide`: `Scan.number` is defined by mutual (well-founded)
@@ -296,15 +301,15 @@ specification `pf.sp`):
   covers the format strings that consist of `%+` alone (its reader `parse_rfc3339_relaxed` is then
   started on a fresh record and must consume the whole text); the specification keeps the item out of
   `Spec.Unambiguous` (`invertible`);
-* a fraction item (`%.f`, `%.3f`, `%3f` …) directly after a white-space item (excluded by
-  `Spec.spaceSafe`), and the `Z`-printing offset items (no specifier produces them);
-* zone-aware values whose local reading (at their own offset, or — for the result — at the printed,
-  minute-rounded offset) leaves the supported range: the theorems assume the former and make no
-  prediction for the latter (`truncate_to_precision = none`).
-Covered since the first version and no longer listed: timestamp-only formats (`%s`, `%s %z` …:
-`family_roundtrip_timestamp_*`, on C14's `datetime_complete_timestamp`), white-space items of the format
-with non-ASCII white space (`Spec.wsRun`), and that formatting a member of the family succeeds
-(`family_format_succeeds`, a conclusion of every `family_roundtrip*` theorem).  A timestamp next to an
+* the `Z`-printing offset items (no specifier produces them: `items_are_proved`).
+No longer listed here: a fraction item directly after a white-space item is OUTSIDE the family since
+`Spec.spaceSafe` became part of `Spec.Unambiguous` (`%S %.f .%3f` really does not round-trip in the
+crate; the unambiguous members `%S %.f`, `%S %3f` … are compared and checked by the oracle only);
+zone-aware values whose truncated wall clock is no instant of the range at the printed offset are
+characterised by `family_roundtrip_zoned_total` / `_excluded` (IMPOSSIBLE); a wall clock outside the range
+of `NaiveDate` makes `Spec.truncate_to_precision` predict nothing (the crate answers OUT_OF_RANGE; compared,
+no theorem); timestamp-only formats (`family_roundtrip_timestamp_*`), non-ASCII white space
+(`Spec.wsRun`), success of formatting (`family_format_succeeds`).  A timestamp next to an
 incomplete set of date/time fields (`%s.%f`) is outside the family (`Spec.Unambiguous`). -/
 theorem family_roundtrip_partial (T : Target) (fmt : List Nat) (v : Value) (tks : List Tok) (p' : Parsed)
     (hT : v.target = T)
@@ -868,6 +873,28 @@ theorem outside_family (t : Target) (is : List Item)
     ¬ Unambiguous is t := by
   intro hu
   rcases h with h | h | h | h <;> exact absurd (hu.1 _ h).1 (by decide)
+
+/-! ## what each entry point looks at -/
+
+/-- `NaiveDate::parse_from_str` ignores the time-of-day, timestamp and offset fields of the record: whatever
+the text supplied for them (even inconsistent values — each setter only checks its own field), the
+resolved date is the same -/
+theorem date_ignores_time_fields (p : Parsed) (a b c d e f g : Option Int) :
+    resolve .date
+      { p with hour_div_12 := a, hour_mod_12 := b, minute := c, second := d, nanosecond := e, timestamp := f,
+               offset := g } = resolve .date p := rfl
+
+/-- `NaiveTime::parse_from_str` ignores the date, timestamp and offset fields of the record -/
+theorem time_ignores_date_fields (p : Parsed) (q : Parsed) (hh : q.hour_div_12 = p.hour_div_12)
+    (hm : q.hour_mod_12 = p.hour_mod_12) (hmi : q.minute = p.minute) (hs : q.second = p.second)
+    (hn : q.nanosecond = p.nanosecond) : resolve .time q = resolve .time p := by
+  simp only [resolve, Parsed.to_naive_time, Parsed.time_tail, hh, hm, hmi, hs, hn]
+
+/-- `DateTime::parse_from_str` needs an offset: a record without an offset field and without a timestamp
+(which stands for UTC) is rejected with NOT_ENOUGH, whatever else it holds -/
+theorem zoned_needs_offset (p : Parsed) (h1 : p.offset = none) (h2 : p.timestamp = none) :
+    resolve .zoned p = .ok (.error .notEnough) := by
+  simp only [resolve, Parsed.to_datetime, h1, h2, Parsed.RP.bind]
 
 /-! ## non-vacuity: the hypotheses are met by non-trivial values -/
 
